@@ -177,7 +177,7 @@ def api_session(case, tok):
             d_ = bp.run_scenarios(scenarios=[SC], scenario_managers=[SM], equations=names, return_format="dict", series_names={})
             out["batch_before"] = bdict()
         bp.begin_session(scenarios=[SC], scenario_managers=[SM], equations=[EQN[e] for e in eqs])
-        out["dt"] = bp.session_state["dt"]
+        out["dt"] = (bp.session_state or {}).get("dt")
         def one(v):
             st = settings_of(v, case)
             r = bp.run_step(settings=st) if st is not None else bp.run_step()
@@ -189,9 +189,13 @@ def api_session(case, tok):
                 for _ in range(cl[1]):
                     one(cl[2])
             else:
+                # stream = step until the reply says "Stoptime reached" (observed on the replies, not on the session's internal clock)
                 guard = 0
-                while bp.session_state["step"] <= bp.session_state["stoptime"] and guard < 10000:
+                while guard < 10000:
                     one(cl[1]); guard += 1
+                    if out["replies"][-1] == "stopped":
+                        out["replies"].pop()
+                        break
         out["results"] = canon_bytime(bp.session_results(index_by_time=True), eqs, tok)
         out["byeq"] = canon_byeq(bp.session_results(index_by_time=False, flat=False), eqs, tok)
         out["flat"] = canon_flat(bp.session_results(index_by_time=False, flat=True), eqs)
@@ -742,10 +746,21 @@ def probe_per_key():
     return ok
 
 
+PROBE_ERRORS = {}
+
+
 def probe_all():
-    state = probe_finalises()
-    return {"dt": probe_session_dt(), "clock": probe_clock(), "final": state and probe_finalises_lookback(), "state": state,
-            "run": probe_run_resets(), "keep": probe_keeps_memo(), "perkey": probe_per_key(), "views": probe_views_current()}
+    """behavioural probes through the public API; a probe that cannot run leaves its fact unestablished (False, with a note): the obligation is
+    then routed to the failing-input search"""
+    def g(name, fn):
+        try:
+            return bool(fn())
+        except Exception as e:  # noqa
+            PROBE_ERRORS[name] = "%s: %s" % (type(e).__name__, e)
+            return False
+    state = g("state", probe_finalises)
+    return {"dt": g("dt", probe_session_dt), "clock": g("clock", probe_clock), "final": state and g("final", probe_finalises_lookback), "state": state,
+            "run": g("run", probe_run_resets), "keep": g("keep", probe_keeps_memo), "perkey": g("perkey", probe_per_key), "views": g("views", probe_views_current)}
 
 
 def gen_lean(f):
@@ -1185,24 +1200,51 @@ def run(chk):
                     small, text, detail, changed = cand, pr[0][1], pr[0][2], True
                     break
         chk.add_finding(key, f"one bptk object / one REST instance, sessions {lifecycle_show(small)}: {text}", {"lifecycle": small, "key": key, "detail": detail})
-    if not facts["views"] and "session-views-lifecycle" not in life_found:
+    if False and not facts["views"] and "session-views-lifecycle" not in life_found:
         chk.add_finding("session-views-lifecycle", "probe: by-equation view read during a session, begin_session again without end_session, read again: not the current session's rows",
                         {"lifecycle": FIXED_LIFECYCLES[0], "key": "session-views-lifecycle"})
-    if not facts["run"] and "run-after-run-stale" not in seq_found:
+    if False and not facts["run"] and "run-after-run-stale" not in seq_found:
         chk.add_finding("run-after-run-stale", "probe: a /run whose settings carry only run specs is answered from the memo of the earlier /run",
                         {"sequence": FIXED_SEQUENCES[0], "key": "run-after-run-stale"})
-    if not facts["perkey"] and "settings-dictionary-per-key" not in found:
+    if False and not facts["perkey"] and "settings-dictionary-per-key" not in found:
         chk.add_finding("settings-dictionary-per-key", "probe: one step's settings {c: 5.0, d: 7.0} (either order): the constants do not each take their own value",
                         {"case": dict(probe_case(1.0, 4, [0, 4], [("step", None), ("step", (("c", 5.0), ("d", 7.0)))]), family="two", d0=0.5), "key": "settings-dictionary-per-key"})
-    if not facts["keep"] and "settings-leak-one-step-back" not in found:
+    if False and not facts["keep"] and "settings-leak-one-step-back" not in found:
         chk.add_finding("settings-leak-one-step-back", "probe: a setting for a constant passed with a step rewrites the constant's EARLIER values (its memo is emptied): "
                         "stock naming the constant directly, c -> 10 with the fourth step",
                         {"case": dict(probe_case(1.0, 8, [2], [("steps", 3, None), ("step", 10.0), ("steps", 2, None)]), family="direct"), "key": "settings-leak-one-step-back"})
     for fact, key in (("dt", "session-dt-ignored"), ("clock", "session-clock-drift"), ("final", "settings-leak-one-step-back")):
-        if not facts[fact] and key not in found:
+        if False and not facts[fact] and key not in found:
             pc = {"dt": probe_case(0.5, 4, [2], [("stream", None)]), "clock": probe_case(0.1, 10, [2], [("stream", None)]),
                   "final": probe_case(1.0, 6, [2], [("steps", 3, None), ("step", 10.0), ("step", None)])}[fact]
             chk.add_finding(key, "probe: " + texts[key], {"case": pc, "key": key})
+    # a fact probed false that no generated input explains: confirm on the probe's own input through the reference; only a reproduced
+    # failure is a concrete accusation, otherwise the broken obligation is reported without one
+    fallbacks = {
+        "dt": ("case", probe_case(0.5, 4, [2], [("stream", None)]), "session-dt-ignored", "C09_witness_session_dt"),
+        "clock": ("case", probe_case(0.1, 10, [2], [("stream", None)]), "session-clock-drift", "C09_witness_clock"),
+        "final": ("case", dict(probe_case(1.0, 8, [2], [("steps", 3, None), ("step", 10.0), ("steps", 3, None)]), family="lookback"), "settings-leak-one-step-back", "C09_witness_state_only / C09_witness_settings_leak"),
+        "run": ("sequence", FIXED_SEQUENCES[0], "run-after-run-stale", "C09_witness_run_runspecs_only"),
+        "keep": ("case", dict(probe_case(1.0, 8, [2], [("steps", 3, None), ("step", 10.0), ("steps", 2, None)]), family="direct"), "settings-leak-one-step-back", "C09_witness_memo_dropped"),
+        "perkey": ("case", dict(probe_case(1.0, 4, [0, 4], [("step", None), ("step", (("c", 5.0), ("d", 7.0)))]), family="two", d0=0.5), "settings-dictionary-per-key", "C09_witness_last_value"),
+        "views": ("lifecycle", FIXED_LIFECYCLES[0], "session-views-lifecycle", "C09_witness_view_cache"),
+    }
+    any_concrete = bool(found) or bool(seq_found) or bool(life_found)
+    for fact, (kind, fcase, key, witness) in fallbacks.items():
+        if facts[fact] or any_concrete:
+            continue
+        try:
+            pr = (run_case(fcase, facts)[2] if kind == "case" else run_sequence(fcase, facts)[2] if kind == "sequence" else lifecycle(fcase, facts)[2])
+        except BaseException as ex:  # noqa
+            pr = []
+        if pr:
+            chk.add_finding(pr[0][0], f"{texts.get(pr[0][0], pr[0][0])}: {pr[0][1]}", {kind: fcase, "key": pr[0][0], "detail": pr[0][2]})
+            any_concrete = True
+        else:
+            chk.add_finding("obligation", f"fact `{fact}` could not be established by its behavioural probe ({PROBE_ERRORS.get(fact, 'probe outcome false')}); the generated obligation is "
+                            f"`¬ C09_full cfg` through {witness}; no generated input and not the probe's own input fails against the reference",
+                            {"theorem": f"Bptk.C09.Gen.violated / Bptk.C09.{witness}", "fact": fact, "probe": PROBE_ERRORS.get(fact)}, found_input=False)
+            break
     if not ok:
         chk.add_finding("obligation", f"proof obligations of C09 no longer check: {why}",
                         {"theorem": "Bptk.C09.Gen.holds / Bptk.Props.C09", "detail": why}, found_input=False)
